@@ -152,12 +152,14 @@ def check_rep(tag, rep, ball, info, names, tol, hyperbolic=False, exact=None, or
                         break
     if faithful and len(X) > 1:
         flat = X.reshape(len(X), -1)
+        rs = 1.0 + np.abs(flat).max(axis=1)       # per pair, only just above float noise (see c07)
         for i0 in range(0, len(X), 256):
             d = np.abs(flat[i0:i0 + 256, None, :] - flat[None, :, :]).max(axis=2)
             idx = np.arange(i0, min(i0 + 256, len(X)))
             d[np.arange(len(idx)), idx] = np.inf
-            if (d < 1e-7 * scale).any():
-                a, b = np.argwhere(d < 1e-7 * scale)[0]
+            thr = (1e-10 if tol < 1e-8 else 1e-8) * np.maximum.outer(rs[i0:i0 + 256], rs)
+            if (d < thr).any():
+                a, b = np.argwhere(d < thr)[0]
                 bad.append((tag + ".faithful", "elements %r and %r have equal images" % (ball.ids[i0 + a], ball.ids[b])))
                 break
     return bad, X
